@@ -281,3 +281,24 @@ MANIFEST_TEXT["C14"] = {
             "observed under 1..16 real threads; TLC judges the run-level clauses (uniqueness through a checked grouping, length, bit balance, digest relation). Level exploration: schedules "
             "of real threads cannot be enumerated and unpredictability cannot be observed.",
     "note": _NOTE, "technique": "TLA+ model of salt freshness (TLC) + trace validation of multi-threaded runs (statistical)"}
+
+PLANS["C16"] = P(
+    "model_checking",
+    ["mock.queue", "mock.repro", "issue.exact", "issue.refs", "issue.accept", "present.ok", "present.exact", "verify.accept", "verify.view", "verify.claims"],
+    [{"module": "MC_salt", "quick": "MC_salt_mock.cfg", "thorough": "MC_salt_mock.cfg", "timeout": {"quick": 120, "thorough": 600}}],
+    [{"driver": "mock", "binary": "harness_mock", "args": {"n": 500, "depth": 4}}],
+    [{"driver": "mock", "binary": "harness_mock", "args": {"n": 20000, "depth": 7}}],
+    required={"mock.queue": 500, "mock.repro": 150, "verify.view": 300},
+    build=("harness_mock",),
+    nontrivial_event="Verify",
+    rule="cases = the library built with --features mock_salts (second harness crate): random claims (as in C01) salted with strings containing , : [ \" \\\\ and runs of spaces, nested containers, "
+         "all strategy kinds, both serializations, HS256 / EdDSA / ES256; a queue of 400 salts is filled, the claims are issued twice with identical arguments and salts, then presented and "
+         "verified; clauses: salts = queue prefix in issuance order, exactly one per disclosure (= NumSd of the marked tree), second run byte-identical (decoys off), issued values decode to the "
+         "claims (issue.exact) and the round trip returns View; distinct = distinct (claims, strategy, selection)",
+    assumptions=_A,
+)
+MANIFEST_TEXT["C16"] = {
+    "text": "MC_salt in mock mode: any interleaving of draws consumes the queue in order (Inv_Queue). The real deterministic-salt build is driven with a filled queue; TLC checks on every Issue "
+            "event that the salts are the queue prefix in disclosure order with one entry per disclosure (NumSd(MarkRoot(U,S))), reproducibility of a second identical run, and all C01/C05 clauses "
+            "(so a spacing rewrite that changes a value shows up as issue.exact / verify.view failures).",
+    "note": _NOTE, "technique": "TLA+ model of the salt queue (TLC) + trace validation of the mock_salts build"}
